@@ -18,7 +18,7 @@
  "level": "U",
  "tier": "quick",
  "harness": "h_lemma_tab",
- "functions": ["lib/ext2fs/crc32c.c:crc32ctable_le", "lib/ext2fs/gen_crc32ctable.c:crc32cinit_le"],
+ "functions": ["lib/ext2fs/gen_crc32ctable.c:crc32cinit_le"],
  "assumes": ["little-endian host configuration (tole(x) = x), CRC_LE_BITS = 64 as built"],
  "timeout": 300,
  "native": true
@@ -32,7 +32,7 @@
  "tier": "quick",
  "harness": "h_lemma_tab",
  "defines": ["CRC_VARIANT_BE"],
- "functions": ["lib/ext2fs/crc32c.c:crc32table_be", "lib/ext2fs/gen_crc32ctable.c:crc32init_be"],
+ "functions": ["lib/ext2fs/gen_crc32ctable.c:crc32init_be"],
  "assumes": ["little-endian host configuration (tobe(x) = swab32(x)), CRC_BE_BITS = 64 as built"],
  "timeout": 300,
  "native": true
